@@ -21,6 +21,10 @@ class Unsupported(Exception):
     pass
 
 
+# set by gen.translate for the kernel being translated (v2 semantics, see Interp.v2)
+V2_ACTIVE = [False]
+
+
 # ---------------------------------------------------------------------------- values
 class Sc(object):
     """Symbolic scalar."""
@@ -42,6 +46,28 @@ class Bo(object):
 
     def __repr__(self):
         return 'Bo(%r)' % (self.e,)
+
+
+class Si(object):
+    """Symbolic integer (Lean `Int`): loop counters, `len()` of symbolic lists."""
+    __slots__ = ('e',)
+
+    def __init__(self, e):
+        self.e = e
+
+    def __repr__(self):
+        return 'Si(%r)' % (self.e,)
+
+
+class Undefined(object):
+    """A name whose Python value exists but is not modelled (e.g. a loop-local temporary
+    read after the loop).  Any use raises Unsupported."""
+
+    def __init__(self, why):
+        self.why = why
+
+    def __repr__(self):
+        return 'Undefined(%s)' % self.why
 
 
 class Obj(object):
@@ -183,11 +209,31 @@ def to_sc(v):
         return lit(v)
     if isinstance(v, Bo):
         return ('ite', v.e, lit(1), lit(0))
+    if isinstance(v, Si):
+        return ('icast', v.e)
     raise Unsupported('not a scalar: %r' % (v,))
 
 
+def ilit(n):
+    return ('ilit', int(n))
+
+
+def is_int(v):
+    return isinstance(v, int) and not isinstance(v, bool)
+
+
+def to_si(v):
+    if isinstance(v, Si):
+        return v.e
+    if isinstance(v, bool):
+        return ilit(int(v))
+    if isinstance(v, int):
+        return ilit(v)
+    raise Unsupported('not an integer: %r' % (v,))
+
+
 def atomic(e):
-    return e[0] in ('var', 'lit', 'pi', 'bvar', 'true', 'false') or \
+    return e[0] in ('var', 'lit', 'pi', 'bvar', 'true', 'false', 'ivar', 'ilit') or \
         (e[0] == 'neg' and atomic(e[1])) or (e[0] == 'not' and atomic(e[1]))
 
 
@@ -231,7 +277,7 @@ def to_bo(v):
 
 def mk_cmp(op, a, b):
     """Comparison of two scalar expressions, normalised to the atoms `lt` and `eq`."""
-    if a[0] == 'lit' and b[0] == 'lit':
+    if (a[0] == 'lit' and b[0] == 'lit') or (a[0] == 'ilit' and b[0] == 'ilit'):
         x, y = a[1], b[1]
         r = {'lt': x < y, 'le': x <= y, 'gt': x > y, 'ge': x >= y,
              'eq': x == y, 'ne': x != y}[op]
@@ -300,11 +346,22 @@ class Interp(object):
         self.spec_starts = []
         self.denominators = None
         self.assert_mode = 'assume'   # 'assume': record symbolic asserts; 'fork': model them
+        # v2 semantics (kernels registered after the first generation): IndexError /
+        # ValueError of list operations are modelled (forked), symbolic integers, loops
+        # with return/break/continue, list accumulators, slices ...  Kernels of the first
+        # generation keep the original behaviour so that their emitted text is unchanged.
+        self.v2 = False
+        self.spec_log = []      # item stores made while speculating (v2): (list, i, old)
+        # known lower bounds on the length of named symbolic lists (v2): from the kernel's
+        # registered `assume_len` (recorded as an assumption) and from facts established on
+        # the current path; used to drop infeasible IndexError branches
+        self.len_lower = {}
 
     # ------------------------------------------------------------ path enumeration
     def explore(self, thunk):
         """Run `thunk` once per decision string, merge the traces into a tree."""
         saved = (self.prefix, self.decisions, self.known, self.trace, self.counter)
+        saved_len = self.len_lower
         results = []
         stack = [[]]
         npaths = 0
@@ -319,6 +376,7 @@ class Interp(object):
                 self.known = {}
                 self.trace = []
                 self.counter = saved[4]
+                self.len_lower = dict(saved_len)
                 err = None
                 value = None
                 try:
@@ -332,6 +390,7 @@ class Interp(object):
                     stack.append(decs[:i] + [not decs[i]])
         finally:
             (self.prefix, self.decisions, self.known, self.trace, self.counter) = saved
+            self.len_lower = saved_len
         return self._merge(results)
 
     def _merge(self, results):
@@ -392,6 +451,22 @@ class Interp(object):
             return (e[0], self.expand(e[1], depth + 1))
         return e
 
+    def store_item(self, c, i, v):
+        """c[i] = v on a concrete python list; logged while speculating so that a failed
+        speculation (or the first arm of a merged `if`) can be undone."""
+        try:
+            old = c[i]
+        except IndexError:
+            raise PyRaise('IndexError')
+        if self.spec_starts:
+            self.spec_log.append((c, i, old))
+        c[i] = v
+
+    def undo_stores(self, upto):
+        while len(self.spec_log) > upto:
+            c, i, old = self.spec_log.pop()
+            c[i] = old
+
     def fresh(self, base):
         self.counter += 1
         base = ''.join(ch if ch.isalnum() else '_' for ch in base).strip('_') or 't'
@@ -408,6 +483,10 @@ class Interp(object):
             nm = self.fresh(base)
             self.trace.append(('let', nm, 'B', v.e))
             return Bo(('bvar', nm))
+        if isinstance(v, Si) and not atomic(v.e):
+            nm = self.fresh(base)
+            self.trace.append(('let', nm, 'I', v.e))
+            return Si(('ivar', nm))
         return v
 
     # ------------------------------------------------------------------- calling
@@ -419,7 +498,7 @@ class Interp(object):
             args = [bound] + list(args)
         env = {}
         if len(args) > len(params) and a.vararg is None:
-            raise Unsupported('too many arguments for %s' % fi.qualname)
+            raise PyRaise('TypeError')
         for p, v in zip(params, args):
             env[p] = v
         if a.vararg is not None:
@@ -428,14 +507,14 @@ class Interp(object):
         first_default = len(params) - len(defaults)
         for k, v in kwargs.items():
             if k not in params:
-                raise Unsupported('unexpected keyword %s for %s' % (k, fi.qualname))
+                raise PyRaise('TypeError')
             env[k] = v
         for i, p in enumerate(params):
             if p not in env:
                 if i >= first_default:
                     env[p] = self.eval_in_module(fi.module, defaults[i - first_default], fi)
                 else:
-                    raise Unsupported('missing argument %s for %s' % (p, fi.qualname))
+                    raise PyRaise('TypeError')
         frame = Frame(self, fi, env)
         try:
             frame.exec_block(node.body)
@@ -477,6 +556,15 @@ class Interp(object):
 
     # ------------------------------------------------------------------ attributes
     def getattr(self, v, attr, frame):
+        if isinstance(v, SOpt) and self.v2:
+            key = repr(('isnone', v.name))
+            if self.known.get(key) is True:
+                raise PyRaise('AttributeError')
+            if self.known.get(key) is None:
+                # attribute of a possibly-None value: decide it (Python raises on None)
+                if self.decide(('isnone', v.name)):
+                    raise PyRaise('AttributeError')
+            v = self.payload(v)
         if isinstance(v, Obj):
             cls = v.cls
             name = frame.mangle(attr)
@@ -505,6 +593,8 @@ class Interp(object):
         if isinstance(v, LbgModule):
             r = self.index.resolve_name(v.info, attr)
             return self.wrap_global(r, attr)
+        if v is None and self.v2:
+            raise PyRaise('AttributeError')
         if isinstance(v, (tuple, list, str, dict)) or v is None or is_num(v):
             return BoundBuiltinMethod(v, attr)
         if isinstance(v, SList):
@@ -547,6 +637,8 @@ class Interp(object):
                         'ceil', 'degrees', 'radians', 'fabs', 'isclose', 'atan', 'log',
                         'pow', 'hypot'):
                 return Builtin('math.' + attr)
+        if mod == 'operator' and attr in ('truediv', 'floordiv', 'add', 'sub', 'mul', 'neg'):
+            return Builtin('operator.' + attr)
         if mod == 'sys' and attr == 'version_info':
             return (3, 12, 1)
         if mod == 'time' and attr == 'time':
@@ -590,6 +682,14 @@ class Interp(object):
             return Bo(mk_cmp('ne', v.e, lit(0)))
         if isinstance(v, Bo):
             return v
+        if isinstance(v, Si):
+            return Bo(mk_cmp('ne', v.e, ilit(0)))
+        if type(v).__name__ == 'SymIdx' and self.v2:
+            import symloops
+            raise symloops._NeedIndexValue()
+        if isinstance(v, SList) and self.v2:
+            import symloops
+            return Bo(('not', ('rawprop', '(%s = [])' % symloops.list_term(v.le))))
         if isinstance(v, (tuple, list, dict, str, set, frozenset)):
             return len(v) != 0
         if isinstance(v, Obj):
@@ -622,6 +722,15 @@ class Interp(object):
             return Sc(('var', '(%s.getD 0)' % v.name))
         if k == 'B':
             return Bo(('bvar', '(%s.getD false)' % v.name))
+        if k == 'I' and self.v2:
+            return Si(('ivar', '(Option.getD %s (0 : Int))' % v.name))
+        if self.v2 and k is not None:
+            import mtypes
+            import symloops
+            if k in mtypes.STRUCTS and k not in mtypes.SLOT_COMPLETE:
+                return mtypes.make_input(self.index, '(Option.getD %s %s)' % (
+                    v.name, symloops._default_term(k)), k, getattr(v, 'pycls', None) or
+                    mtypes.RESULT_CLASSES[k][-1])
         raise Unsupported('payload of optional slot of kind %r' % (v.kind,))
 
     def arith(self, op, a, b):
@@ -632,8 +741,34 @@ class Interp(object):
         if type(a).__name__ == 'SymIdx' and isinstance(b, int) and op in ('add', 'sub'):
             import symloops
             return symloops.SymIdx(a.key, a.off + (b if op == 'add' else -b))
+        if (type(a).__name__ == 'SymIdx' or type(b).__name__ == 'SymIdx') and self.v2:
+            import symloops
+            raise symloops._NeedIndexValue()
+        if (a is None or b is None) and self.v2:
+            raise PyRaise('TypeError')
         if isinstance(a, Obj) or isinstance(b, Obj):
             return self.obj_binop(op, a, b)
+        if isinstance(a, Si) or isinstance(b, Si):
+            r = self.int_arith(op, a, b)
+            if r is not None:
+                return r
+        if isinstance(a, SList) and isinstance(b, SList) and op == 'add' and self.v2:
+            if a.elem != b.elem:
+                raise Unsupported('concatenation of lists of different kinds')
+            return SList(('lappend', a.le, b.le), a.elem, a.pycls)
+        if op == 'add' and self.v2 and (
+                (isinstance(a, SList) and isinstance(b, (tuple, list))) or
+                (isinstance(b, SList) and isinstance(a, (tuple, list)))):
+            import symloops
+            if isinstance(a, SList):
+                r = SList(a.le, a.elem, a.pycls)
+                for x in b:
+                    r.le = ('lsnoc', r.le, symloops._item_term(self, r, x))
+                return r
+            r = SList(b.le, b.elem, b.pycls)
+            for x in reversed(a):
+                r.le = ('lcons', symloops._item_term(self, r, x), r.le)
+            return r
         if isinstance(a, bool):
             a = int(a)
         if isinstance(b, bool):
@@ -665,7 +800,8 @@ class Interp(object):
             return a * b
         if op == 'mod' and isinstance(a, str):
             return a
-        if isinstance(a, (Sc, Bo)) or isinstance(b, (Sc, Bo)) or is_num(a) and is_num(b):
+        if isinstance(a, (Sc, Bo, Si)) or isinstance(b, (Sc, Bo, Si)) or \
+                is_num(a) and is_num(b):
             ea, eb = to_sc(a), to_sc(b)
             if op in ('add', 'sub', 'mul'):
                 return Sc((op, ea, eb))
@@ -692,11 +828,46 @@ class Interp(object):
                     self.uses_math = True
                     return Sc(('math', 'sqrt', (ea,)))
                 raise Unsupported('power with exponent %r' % (b,))
+            if op == 'floordiv' and self.v2:
+                # Python float floor division: floor(a / b) (ZeroDivisionError as for `/`)
+                self.uses_math = True
+                if eb[0] == 'lit' and eb[1] == 0:
+                    raise PyRaise('ZeroDivisionError')
+                if self.try_depth_zero_div > 0 and self.denominators is None:
+                    if self.decide(('eq', eb, lit(0))):
+                        raise PyRaise('ZeroDivisionError')
+                return Sc(('math', 'floor', (('div', ea, eb),)))
             if op == 'mod':
                 self.uses_math = True
                 # Python float modulo: a - floor(a / b) * b
                 return Sc(('sub', ea, ('mul', ('math', 'floor', (('div', ea, eb),)), eb)))
         raise Unsupported('arith %s on %r, %r' % (op, a, b))
+
+    def int_arith(self, op, a, b):
+        """Arithmetic with at least one symbolic integer; None when the operation leaves
+        the integers (the caller then continues with the field embedding)."""
+        if not ((isinstance(a, Si) or is_int(a) or isinstance(a, bool)) and
+                (isinstance(b, Si) or is_int(b) or isinstance(b, bool))):
+            return None
+        ea, eb = to_si(a), to_si(b)
+        if op in ('add', 'sub', 'mul'):
+            return Si(('i' + op, ea, eb))
+        if op in ('mod', 'floordiv'):
+            # Lean's Int `%` / `/` are the Euclidean ones: they agree with Python's floor
+            # semantics exactly when the divisor is positive
+            if eb[0] == 'ilit' and eb[1] > 0:
+                return Si(('i' + op, ea, eb))
+            raise Unsupported('integer %s by a divisor that is not a positive literal' % op)
+        if op == 'pow':
+            if eb[0] == 'ilit' and 0 <= eb[1] <= 8:
+                if eb[1] == 0:
+                    return 1
+                e = ea
+                for _ in range(eb[1] - 1):
+                    e = ('imul', e, ea)
+                return Si(e)
+            raise Unsupported('integer power')
+        return None
 
     _DUNDER = {'add': '__add__', 'sub': '__sub__', 'mul': '__mul__', 'div': '__truediv__',
                'floordiv': '__floordiv__', 'mod': '__mod__', 'pow': '__pow__'}
@@ -724,6 +895,11 @@ class Interp(object):
 
     def compare(self, op, a, b):
         """op in lt le gt ge eq ne is isnot in notin -> bool or Bo."""
+        if type(a).__name__ == 'SymIdx' or type(b).__name__ == 'SymIdx':
+            if self.v2:
+                import symloops
+                raise symloops._NeedIndexValue()
+            raise Unsupported('comparison of a symbolic loop index')
         if op in ('is', 'isnot'):
             if isinstance(a, SOpt) or isinstance(b, SOpt):
                 o, other = (a, b) if isinstance(a, SOpt) else (b, a)
@@ -767,6 +943,17 @@ class Interp(object):
             b = self.payload(b)
         if isinstance(a, Obj) or isinstance(b, Obj):
             return self.obj_compare(op, a, b)
+        if isinstance(a, SList) and isinstance(b, SList) and self.v2 and op in ('eq', 'ne'):
+            import symloops
+            import mtypes
+            ka, kb = mtypes.parse_type(a.elem), mtypes.parse_type(b.elem)
+            if ka != kb or ka not in ('V2', 'V3', 'S', 'B', 'I'):
+                raise Unsupported('equality of symbolic lists of kinds %r, %r' % (ka, kb))
+            # Point / Vector __eq__ compares the coordinate tuples exactly, i.e. it is the
+            # structural equality of V2 / V3
+            r = Bo(('rawprop', '(%s = %s)' % (symloops.list_term(a.le),
+                                               symloops.list_term(b.le))))
+            return r if op == 'eq' else Bo(mk_not(r.e))
         if isinstance(a, (tuple, list)) and isinstance(b, (tuple, list)):
             if op in ('eq', 'ne'):
                 if type(a) != type(b) or len(a) != len(b):
@@ -782,7 +969,15 @@ class Interp(object):
                     return r
                 return (not r) if isinstance(r, bool) else Bo(mk_not(r.e))
             raise Unsupported('ordering of sequences')
-        if isinstance(a, (Sc, Bo)) or isinstance(b, (Sc, Bo)):
+        if (isinstance(a, Si) or isinstance(b, Si)) and \
+                (isinstance(a, Si) or is_int(a)) and (isinstance(b, Si) or is_int(b)):
+            r = mk_cmp(op, to_si(a), to_si(b))
+            if r[0] == 'true':
+                return True
+            if r[0] == 'false':
+                return False
+            return Bo(r)
+        if isinstance(a, (Sc, Bo, Si)) or isinstance(b, (Sc, Bo, Si)):
             if (a is None or b is None) or isinstance(a, str) or isinstance(b, str):
                 if op == 'eq':
                     return False
@@ -867,6 +1062,14 @@ class Interp(object):
             if acc[0] == 'false':
                 return False
             return Bo(acc)
+        if isinstance(container, SList) and self.v2:
+            import symloops
+            import mtypes
+            kd = mtypes.parse_type(container.elem)
+            if kd == 'I' and (isinstance(item, Si) or is_int(item)):
+                return Bo(('rawprop', '(%s ∈ %s)' % (
+                    __import__('emit').sexpr(to_si(item)), symloops.list_term(container.le))))
+            raise Unsupported('membership in a symbolic list of kind %r' % (kd,))
         if isinstance(container, dict):
             return item in container
         if isinstance(container, str):
@@ -896,19 +1099,35 @@ class Interp(object):
                         return _m.floor(args[0])
                 return Sc(('math', fn, tuple(to_sc(a) for a in args)))
             raise Unsupported(name)
+        if name.startswith('operator.'):
+            opn = name.split('.')[1]
+            if opn == 'neg' and len(args) == 1:
+                return self.arith('sub', 0, args[0])
+            if len(args) == 2:
+                return self.arith({'truediv': 'div'}.get(opn, opn), args[0], args[1])
+            raise Unsupported(name)
         if name == 'float':
             v = args[0]
             if isinstance(v, (Sc,)):
                 return v
             if is_num(v):
                 return v
-            if isinstance(v, Bo):
+            if isinstance(v, (Bo, Si)):
                 return Sc(to_sc(v))
             raise PyRaise('TypeError')
         if name == 'int':
             v = args[0]
             if is_num(v):
                 return int(v)
+            if isinstance(v, Si):
+                return v
+            if isinstance(v, Sc) and self.v2:
+                # truncation toward zero, kept as an (integer-valued) field element
+                self.uses_math = True
+                x = self.name_value(v, 'ix')
+                return Sc(('ite', ('lt', x.e, lit(0)),
+                           ('neg', ('math', 'floor', (('neg', x.e),))),
+                           ('math', 'floor', (x.e,))))
             if isinstance(v, Sc):
                 raise Unsupported('int() of symbolic scalar')
             raise PyRaise('TypeError')
@@ -923,8 +1142,15 @@ class Interp(object):
             if isinstance(v, Obj):
                 _, m = self.index.find_member(v.cls, '__abs__')
                 return self.call_function(m, [], {}, bound=v)
+            if isinstance(v, Si):
+                return Si(('iabs', v.e))
             return Sc(('abs', to_sc(v)))
         if name in ('min', 'max'):
+            if len(args) == 1 and isinstance(args[0], SList) and self.v2 and not kwargs:
+                import symloops
+                return symloops.sym_minmax(_FrameShim(self), name, args[0])
+            if kwargs:
+                raise Unsupported('%s() with keyword arguments' % name)
             if len(args) == 1:
                 args = list(self.iterate(args[0]))
             if all(is_num(a) for a in args):
@@ -945,6 +1171,8 @@ class Interp(object):
                     return self.call_function(m, [], {}, bound=v)
             if isinstance(v, SList):
                 import symloops
+                if self.v2:
+                    return Si(('ivar', '((%s).length : Int)' % symloops.list_term(v.le)))
                 return Sc(('raw', '((%s).length : α)' % symloops.list_term(v.le)))
             raise PyRaise('TypeError')
         if name == 'range':
@@ -952,10 +1180,22 @@ class Interp(object):
                 return range(*args)
             raise Unsupported('symbolic range')
         if name == 'enumerate':
+            if self.v2 and isinstance(args[0], Obj):
+                _, m_ = self.index.find_member(args[0].cls, '__iter__')
+                if m_ is not None:
+                    r_ = self.call_function(m_, [], {}, bound=args[0])
+                    if isinstance(r_, SList):
+                        args = [r_] + list(args[1:])
             if isinstance(args[0], SList):
+                if len(args) > 1 or kwargs:
+                    raise Unsupported('enumerate() with a start value over a symbolic list')
                 return ('enumerate', args[0])
             return list(enumerate(self.iterate(args[0])))
         if name == 'zip':
+            if self.v2 and len(args) == 2 and all(isinstance(a, SList) for a in args):
+                return SList(('lzip', args[0].le, args[1].le),
+                             ('tup', args[0].elem, args[1].elem),
+                             (args[0].pycls, args[1].pycls))
             return list(zip(*[list(self.iterate(a)) for a in args]))
         if name == 'reversed':
             if isinstance(args[0], SList):
@@ -965,6 +1205,8 @@ class Interp(object):
             if not args:
                 return () if name == 'tuple' else []
             if isinstance(args[0], SList):
+                if self.v2:     # a new sequence object (no aliasing with the argument)
+                    return SList(args[0].le, args[0].elem, args[0].pycls)
                 return args[0]
             it = list(self.iterate(args[0]))
             return tuple(it) if name == 'tuple' else it
@@ -980,6 +1222,16 @@ class Interp(object):
             return acc
         if name == 'isinstance':
             return self.isinstance(args[0], args[1])
+        if name == 'getattr' and self.v2:
+            if len(args) in (2, 3) and isinstance(args[1], str) and isinstance(args[0], Obj):
+                try:
+                    return self.getattr(args[0], args[1], Frame(self, FuncInfo(
+                        '<getattr>', None, args[0].cls.module, None, 'function'), {}))
+                except PyRaise:
+                    if len(args) == 3:
+                        return args[2]
+                    raise
+            raise Unsupported('getattr(%r, %r)' % (args[0], args[1]))
         if name == 'hasattr':
             v, a = args
             if isinstance(v, Obj):
@@ -1000,7 +1252,7 @@ class Interp(object):
                 return PyType('float')
             if isinstance(v, bool) or isinstance(v, Bo):
                 return PyType('bool')
-            if isinstance(v, int):
+            if isinstance(v, int) or isinstance(v, Si):
                 return PyType('int')
             if isinstance(v, tuple):
                 return PyType('tuple')
@@ -1016,12 +1268,32 @@ class Interp(object):
         if name == 'str' or name == 'repr':
             return '<str>'
         if name == 'round':
+            v = args[0]
+            if len(args) == 1 and not kwargs and self.v2 and isinstance(v, Sc):
+                # round-half-to-even of a float, as an integer-valued field element:
+                #   f = floor(x + 1/2); if x + 1/2 = f and f is odd then f - 1 else f
+                self.uses_math = True
+                x = self.name_value(v, 'rx')
+                h = ('add', x.e, ('lit', Fraction(1, 2)))
+                f = self.name_value(Sc(('math', 'floor', (h,))), 'rf')
+                odd = ('not', ('eq', ('mul', ('math', 'floor', (('div', f.e, lit(2)),)),
+                                      lit(2)), f.e))
+                tie = ('and', ('eq', h, f.e), odd)
+                return Sc(('ite', tie, ('sub', f.e, lit(1)), f.e))
+            if len(args) == 1 and is_num(v):
+                return round(v)
             raise Unsupported('round()')
         if name == 'sorted':
             it = list(self.iterate(args[0]))
             if all(is_num(x) for x in it) and not kwargs:
                 return sorted(it)
             raise Unsupported('sorted on symbolic values')
+        if name in ('any', 'all') and isinstance(args[0], SList) and self.v2:
+            import symloops
+            if args[0].elem != 'B':
+                raise Unsupported('%s() over a symbolic list of non-booleans' % name)
+            return Bo(('bvar', '(List.%s %s (fun b => b))' % (
+                name, symloops.list_term(args[0].le))))
         if name == 'any' or name == 'all':
             it = list(self.iterate(args[0]))
             acc = ('false',) if name == 'any' else ('true',)
@@ -1033,6 +1305,8 @@ class Interp(object):
                 return acc[0] == 'true'
             return Bo(acc)
         if name == 'iter':
+            if isinstance(args[0], SList) and self.v2:
+                return SList(args[0].le, args[0].elem, args[0].pycls)
             return list(self.iterate(args[0]))
         if name == 'time.time':
             raise Unsupported('time.time()')
@@ -1049,7 +1323,7 @@ class Interp(object):
                 return isinstance(v, (Sc, float))
             if n == 'int':
                 return isinstance(v, int) and not isinstance(v, bool) or \
-                    isinstance(v, bool)
+                    isinstance(v, bool) or isinstance(v, Si)
             if n == 'bool':
                 return isinstance(v, (bool, Bo))
             if n in ('tuple', 'list', 'str', 'dict'):
@@ -1092,7 +1366,7 @@ class BoundBuiltinMethod(object):
 BUILTIN_NAMES = ('float', 'int', 'bool', 'abs', 'min', 'max', 'len', 'range', 'enumerate',
                  'zip', 'reversed', 'tuple', 'list', 'sum', 'isinstance', 'hasattr',
                  'type', 'hash', 'str', 'repr', 'round', 'sorted', 'any', 'all', 'iter',
-                 'dict', 'set', 'object')
+                 'dict', 'set', 'object', 'getattr')
 
 
 class Frame(object):
@@ -1234,8 +1508,8 @@ class Frame(object):
             return
         if isinstance(st, ast.If):
             tv = I.truth(self.eval(st.test))
-            if isinstance(tv, Bo) and _mergeable_block(st.body) and \
-                    _mergeable_block(st.orelse) and self.try_merge_if(st, tv):
+            if isinstance(tv, Bo) and _mergeable_block(st.body, I.v2) and \
+                    _mergeable_block(st.orelse, I.v2) and self.try_merge_if(st, tv):
                 return
             if (tv if isinstance(tv, bool) else I.decide(tv.e)):
                 self.exec_block(st.body)
@@ -1290,6 +1564,19 @@ class Frame(object):
         if isinstance(st, ast.Try):
             self.exec_try(st)
             return
+        if isinstance(st, ast.ImportFrom) and I.v2:
+            # function-level `from .mod import Name`: bind the names locally
+            base = I.index._resolve_relative(self.module, st.level, st.module)
+            for a in st.names:
+                if base in I.index.modules:
+                    r = I.index.resolve_name(I.index.modules[base], a.name)
+                    if r is None and (base + '.' + a.name) in I.index.modules:
+                        r = ('lbgmodule', I.index.modules[base + '.' + a.name])
+                    self.env[a.asname or a.name] = I.wrap_global(r, a.name)
+                else:
+                    self.env[a.asname or a.name] = I.wrap_global(('pyname', base, a.name),
+                                                                 a.name)
+            return
         if isinstance(st, (ast.Import, ast.ImportFrom)):
             return
         if isinstance(st, ast.Delete):
@@ -1336,9 +1623,20 @@ class Frame(object):
             self.exec_block(st.orelse)
         self.exec_block(st.finalbody)
 
+    def sym_iterable(self, it):
+        """An object whose `__iter__` yields a symbolic list stands for that list (v2)."""
+        I = self.I
+        if I.v2 and isinstance(it, Obj):
+            _, m = I.index.find_member(it.cls, '__iter__')
+            if m is not None:
+                r = I.call_function(m, [], {}, bound=it)
+                if isinstance(r, SList):
+                    return r
+        return it
+
     def exec_for(self, st):
         I = self.I
-        it = self.eval(st.iter)
+        it = self.sym_iterable(self.eval(st.iter))
         if isinstance(it, SList) or (isinstance(it, tuple) and len(it) == 2 and
                                      it[0] == 'enumerate' and isinstance(it[1], SList)):
             import symloops
@@ -1368,12 +1666,14 @@ class Frame(object):
         saved_assume = len(I.assumptions)
         I.nofork += 1
         I.spec_starts.append(Obj._counter[0])
+        log0 = len(I.spec_log)
         try:
             r = thunk()
             return True, r
         except _Return as rr:
             if want_return:
                 return True, rr.v
+            I.undo_stores(log0)
             self.env.clear()
             self.env.update(saved_env)
             del I.trace[saved_trace:]
@@ -1381,6 +1681,7 @@ class Frame(object):
             I.counter = saved_counter
             return False, None
         except (_NeedFork, PyRaise, _Break, _Continue):
+            I.undo_stores(log0)
             self.env.clear()
             self.env.update(saved_env)
             del I.trace[saved_trace:]
@@ -1399,20 +1700,65 @@ class Frame(object):
         base_env = dict(self.env)
         saved_trace = len(I.trace)
         saved_counter = I.counter
-        ok1, _ = self._speculate(lambda: self.exec_block(st.body))
-        if not ok1:
-            return False
-        env1 = dict(self.env)
-        self.env.clear()
-        self.env.update(base_env)
-        ok2, _ = self._speculate(lambda: self.exec_block(st.orelse))
-        if not ok2:
+        log0 = len(I.spec_log)
+
+        def stored_lists():
+            out = {}
+            for (c, _i, _old) in I.spec_log[log0:]:
+                out[id(c)] = (c, list(c))
+            return out
+        # while the arms run, stores must be logged even at the outermost level
+        I.spec_starts.append(Obj._counter[0])
+        try:
+            ok1, _ = self._speculate(lambda: self.exec_block(st.body))
+            if not ok1:
+                return False
+            env1 = dict(self.env)
+            lists1 = stored_lists()
+            I.undo_stores(log0)
             self.env.clear()
             self.env.update(base_env)
-            del I.trace[saved_trace:]
-            I.counter = saved_counter
-            return False
-        env2 = dict(self.env)
+            ok2, _ = self._speculate(lambda: self.exec_block(st.orelse))
+            if not ok2:
+                self.env.clear()
+                self.env.update(base_env)
+                del I.trace[saved_trace:]
+                I.counter = saved_counter
+                return False
+            env2 = dict(self.env)
+            lists2 = stored_lists()
+            I.undo_stores(log0)
+        finally:
+            I.spec_starts.pop()
+        item_updates = []
+        seen_ids = []
+        for dct in (lists1, lists2):
+            for key in dct:
+                if key not in seen_ids:
+                    seen_ids.append(key)
+        for key in seen_ids:
+            c = (lists1.get(key) or lists2.get(key))[0]
+            a_items = lists1[key][1] if key in lists1 else list(c)
+            b_items = lists2[key][1] if key in lists2 else list(c)
+            if len(a_items) != len(b_items) or len(a_items) != len(c):
+                self.env.clear()
+                self.env.update(base_env)
+                del I.trace[saved_trace:]
+                I.counter = saved_counter
+                return False
+            for j, (x, y) in enumerate(zip(a_items, b_items)):
+                if x is y:
+                    if c[j] is not x:
+                        item_updates.append((c, j, x))
+                    continue
+                m = _merge_values(tv.e, x, y)
+                if m is None:
+                    self.env.clear()
+                    self.env.update(base_env)
+                    del I.trace[saved_trace:]
+                    I.counter = saved_counter
+                    return False
+                item_updates.append((c, j, m))
         merged = {}
         for k in sorted(set(env1.keys()) | set(env2.keys())):
             if k in env1 and k in env2:
@@ -1427,7 +1773,7 @@ class Frame(object):
                     del I.trace[saved_trace:]
                     I.counter = saved_counter
                     return False
-                if isinstance(m, (Sc, Bo)):
+                if isinstance(m, (Sc, Bo, Si)):
                     m = I.name_value(m, k)
                 merged[k] = m
             else:
@@ -1440,6 +1786,10 @@ class Frame(object):
                 return False
         self.env.clear()
         self.env.update(merged)
+        for (c, j, m) in item_updates:
+            if isinstance(m, (Sc, Bo, Si)):
+                m = I.name_value(m, 'item')
+            I.store_item(c, j, m)
         return True
 
     def try_merge_ifexp(self, e, tv):
@@ -1464,7 +1814,7 @@ class Frame(object):
     def assign(self, target, v):
         I = self.I
         if isinstance(target, ast.Name):
-            if isinstance(v, (Sc, Bo)):
+            if isinstance(v, (Sc, Bo, Si)):
                 v = I.name_value(v, target.id)
             self.env[target.id] = v
             return
@@ -1488,6 +1838,12 @@ class Frame(object):
         if isinstance(target, ast.Subscript):
             c = self.eval(target.value)
             i = self.eval(target.slice)
+            if I.v2 and isinstance(c, list) and isinstance(i, int) and \
+                    not isinstance(i, bool):
+                if isinstance(v, (Sc, Bo, Si)):
+                    v = I.name_value(v, 'item')
+                I.store_item(c, i, v)
+                return
             if isinstance(c, (list, dict)):
                 if I.spec_starts:
                     raise _NeedFork()
@@ -1521,6 +1877,8 @@ class Frame(object):
             if isinstance(e.op, ast.USub):
                 if is_num(v):
                     return -v
+                if isinstance(v, Si):
+                    return Si(('ineg', v.e))
                 if isinstance(v, Obj):
                     _, m = I.index.find_member(v.cls, '__neg__')
                     return I.call_function(m, [], {}, bound=v)
@@ -1576,7 +1934,10 @@ class Frame(object):
 
     def lookup(self, name):
         if name in self.env:
-            return self.env[name]
+            v = self.env[name]
+            if isinstance(v, Undefined):
+                raise Unsupported('use of %s: %s' % (name, v.why))
+            return v
         r = self.I.index.resolve_name(self.module, name)
         if r is not None:
             return self.I.wrap_global(r, name)
@@ -1716,6 +2077,9 @@ class Frame(object):
                 return getattr(r, n)()
             if n in ('startswith', 'endswith'):
                 return getattr(r, n)(*args)
+        if isinstance(r, SList) and self.I.v2:
+            import symloops
+            return symloops.slist_method(self, r, n, args, kwargs)
         if isinstance(r, list) and self.I.spec_starts and \
                 n in ('append', 'extend', 'insert', 'pop', 'reverse'):
             raise _NeedFork()
@@ -1770,7 +2134,7 @@ class Frame(object):
         I = self.I
         if len(e.generators) == 1:
             g = e.generators[0]
-            it = self.eval(g.iter)
+            it = self.sym_iterable(self.eval(g.iter))
             if isinstance(it, SList) or (isinstance(it, tuple) and len(it) == 2 and
                                          it[0] == 'enumerate' and
                                          isinstance(it[1], SList)):
@@ -1803,18 +2167,26 @@ class Frame(object):
         return out
 
 
-def _mergeable_block(stmts):
+def _item_target(t):
+    """`name[<int literal>]`"""
+    return isinstance(t, ast.Subscript) and isinstance(t.value, ast.Name) and \
+        isinstance(t.slice, ast.Constant) and isinstance(t.slice.value, int) and \
+        not isinstance(t.slice.value, bool)
+
+
+def _mergeable_block(stmts, v2=False):
     for st in stmts:
         if isinstance(st, ast.Pass):
             continue
         if isinstance(st, ast.Assign):
-            if all(isinstance(t, ast.Name) for t in st.targets):
+            if all(isinstance(t, ast.Name) or (v2 and _item_target(t)) for t in st.targets):
                 continue
             return False
-        if isinstance(st, ast.AugAssign) and isinstance(st.target, ast.Name):
+        if isinstance(st, ast.AugAssign) and (isinstance(st.target, ast.Name) or
+                                              (v2 and _item_target(st.target))):
             continue
-        if isinstance(st, ast.If) and _mergeable_block(st.body) and \
-                _mergeable_block(st.orelse):
+        if isinstance(st, ast.If) and _mergeable_block(st.body, v2) and \
+                _mergeable_block(st.orelse, v2):
             continue
         return False
     return True
@@ -1845,20 +2217,22 @@ def _spec_safe_block(stmts):
     return True
 
 
-def _merge_values(cond, a, b, I=None):
+def _merge_values(cond, a, b, I=None, _depth=0):
     """Value of `a if cond else b` without forking, or None when not expressible."""
     if a is b:
         return a
     if isinstance(a, Obj) and isinstance(b, Obj):
         if a.cls is not b.cls or set(a.slots.keys()) != set(b.slots.keys()):
             return None
+        if _depth > 3:
+            return None         # linked structures (prev / next rings) are not merged
         o = Obj(a.cls)
         for k in a.slots:
             x, y = a.slots[k], b.slots[k]
             if x is None and y is None:
                 o.slots[k] = None
                 continue
-            m = _merge_values(cond, x, y, I)
+            m = _merge_values(cond, x, y, I, _depth + 1)
             if m is None:
                 return None
             if I is not None and isinstance(m, (Sc, Bo)):
@@ -1873,11 +2247,19 @@ def _merge_values(cond, a, b, I=None):
                                                        isinstance(b, bool)):
         ea, eb = to_bo(a), to_bo(b)
         return Bo(mk_or(mk_and(cond, ea), mk_and(mk_not(cond), eb)))
+    if (isinstance(a, Si) or isinstance(b, Si)) and \
+            (isinstance(a, Si) or is_int(a)) and (isinstance(b, Si) or is_int(b)):
+        ea, eb = to_si(a), to_si(b)
+        if ea == eb:
+            return a
+        return Si(('iite', cond, ea, eb))
     if (isinstance(a, Sc) or is_num(a)) and (isinstance(b, Sc) or is_num(b)):
         ea, eb = to_sc(a), to_sc(b)
         if ea == eb:
             return a
         if isinstance(a, int) and isinstance(b, int):
+            if V2_ACTIVE[0] and not isinstance(a, bool) and not isinstance(b, bool):
+                return Si(('iite', cond, ilit(a), ilit(b)))
             return None
         return Sc(('ite', cond, ea, eb))
     if a is None and b is None:
